@@ -72,6 +72,7 @@ class Stats:
         self.samples = []
         self.failures = []  # list of dict(case=..., detail=...)
         self.notes = []
+        self.payload = []  # property-specific data merged across shards (see finalize hooks)
         self.exhaustive = None
 
     def case(self, key=None, nontrivial=False, classes=(), sample=None):
@@ -95,6 +96,7 @@ class Stats:
                 self.samples.append(s)
         self.failures.extend(other.failures)
         self.notes.extend(other.notes)
+        self.payload.extend(other.payload)
         if other.exhaustive is not None:
             self.exhaustive = other.exhaustive if self.exhaustive is None else (self.exhaustive and other.exhaustive)
         return self
